@@ -317,6 +317,22 @@ func (v *Verifier) typeInv(st *State, x Term, t types.Type) Term {
 }
 
 // sigOfComp derives the SMT sort of a heap component from its name.
+// rangeOfComp: integer range of the values held by a component (if its leaf type is an integer type).
+func (v *Verifier) rangeOfComp(name string) (lo, hi string, ok bool) {
+	v.lastLeaf = nil
+	if _, found := v.sigOfComp(name); !found || v.lastLeaf == nil {
+		return "", "", false
+	}
+	if strings.HasPrefix(name, "MapDom[") || strings.HasPrefix(name, "MapCard[") || strings.HasPrefix(name, "IterVisited[") {
+		return "", "", false
+	}
+	l, h, isInt := intRange(v.lastLeaf)
+	if !isInt {
+		return "", "", false
+	}
+	return BigLit(l).S, BigLit(h).S, true
+}
+
 func (v *Verifier) sigOfComp(name string) (string, bool) {
 	evalT := func(s string) (types.Type, bool) {
 		if gt, ok := v.ghostTypeOf(s); ok {
@@ -362,6 +378,7 @@ func (v *Verifier) sigOfComp(name string) (string, bool) {
 		if !ok {
 			return "", false
 		}
+		v.lastLeaf = t
 		return compSort(s, arity), true
 	}
 	bracket := func(prefix string) (inner, rest string, ok bool) {
